@@ -389,9 +389,9 @@ fn check_g1_pair(c: &G1Pair) -> CaseResult {
     let p_ref = c.p.reference();
     let p_lib = c.p.library();
     let (q_ref, q_lib) = match c.relation {
-        1 | 2 => {
-            let base = if c.relation == 1 { p_ref.clone() } else { pr.g1.neg(&p_ref) };
-            let l = from_be(&c.q.lambda) % pr.p;
+        1..=8 => {
+            let base = if c.relation % 2 == 1 { p_ref.clone() } else { pr.g1.neg(&p_ref) };
+            let l = if c.relation <= 2 { from_be(&c.q.lambda) % pr.p } else { super::sm2util::tied_lambda(&(from_be(&c.p.lambda) % pr.p), c.relation, pr.p) };
             if l.is_zero() || base.is_none() {
                 (None, lib_g1(&None, &(from_be(&c.q.k) % pr.p)))
             } else {
@@ -406,8 +406,8 @@ fn check_g1_pair(c: &G1Pair) -> CaseResult {
         (true, true) => "O+O".to_string(),
         (true, false) => "O+Q".to_string(),
         (false, true) => "P+O".to_string(),
-        _ if p_ref == q_ref => format!("P=Q/{}", if same_z { "sameZ" } else { "diffZ" }),
-        _ if pr.g1.add(&p_ref, &q_ref).is_none() => format!("P=-Q/{}", if same_z { "sameZ" } else { "diffZ" }),
+        _ if p_ref == q_ref => format!("P=Q/{}", if c.relation >= 3 { "tiedZ" } else if same_z { "sameZ" } else { "diffZ" }),
+        _ if pr.g1.add(&p_ref, &q_ref).is_none() => format!("P=-Q/{}", if c.relation >= 3 { "tiedZ" } else if same_z { "sameZ" } else { "diffZ" }),
         _ => "generic".to_string(),
     };
     let tag = |mut f: Fail| {
@@ -642,9 +642,13 @@ fn check_g2_pair(c: &G2Pair) -> CaseResult {
     let p_ref = c.p.reference();
     let p_lib = c.p.library();
     let (q_ref, q_lib) = match c.relation {
-        1 | 2 => {
-            let base = if c.relation == 1 { p_ref.clone() } else { pr.g2.neg(&p_ref) };
-            let l = c.q.lambda();
+        1..=8 => {
+            let base = if c.relation % 2 == 1 { p_ref.clone() } else { pr.g2.neg(&p_ref) };
+            let l = if c.relation <= 2 { c.q.lambda() } else {
+                // Z_Q = t Z_P with t = -1, w, w^2 in the base field
+                let t = super::sm2util::tied_lambda(&BigUint::one(), c.relation, pr.p);
+                c.p.lambda().mul(&r9::fp2(&t, &BigUint::zero()))
+            };
             if l.is_zero() || base.is_none() {
                 (None, TwistPoint::zero())
             } else {
@@ -983,12 +987,12 @@ pub fn run(ctx: &Ctx) {
         (prop::option::of(g1rep()), gen::scalar256(&r9::params().n)).prop_map(|(p, scalar)| G1Mul { p, scalar })
     }, check_g1_mul);
     ctx.generated("g1_point_pairs", "proptest (P rep, relation, Q rep): add, sub, equals, double, neg, on-curve, encoding", ctx.tier.pick(3_000, 40_000), || {
-        (g1rep(), prop_oneof![3 => Just(0u8), 2 => Just(1u8), 2 => Just(2u8)], g1rep()).prop_map(|(p, relation, q)| G1Pair { p, relation, q })
+        (g1rep(), prop_oneof![3 => Just(0u8), 2 => Just(1u8), 2 => Just(2u8), 2 => 3..=8u8], g1rep()).prop_map(|(p, relation, q)| G1Pair { p, relation, q })
     }, check_g1_pair);
 
     // ---- G2
     ctx.generated("g2_point_pairs", "proptest (P rep, relation, Q rep) on the twist: mixed and full addition, sub, double, neg, equality", ctx.tier.pick(1_200, 20_000), || {
-        (g2rep(), prop_oneof![3 => Just(0u8), 2 => Just(1u8), 2 => Just(2u8)], g2rep()).prop_map(|(p, relation, q)| G2Pair { p, relation, q })
+        (g2rep(), prop_oneof![3 => Just(0u8), 2 => Just(1u8), 2 => Just(2u8), 2 => 3..=8u8], g2rep()).prop_map(|(p, relation, q)| G2Pair { p, relation, q })
     }, check_g2_pair);
     ctx.generated("g2_mul_generated", "proptest scalars through TwistPoint::g_mul and point_mul (affine and Jacobian base)", ctx.tier.pick(250, 4_000), || {
         (prop::option::of(g2rep()), gen::scalar256(&r9::params().n)).prop_map(|(p, scalar)| G2Mul { p, scalar })
